@@ -283,6 +283,13 @@ impl<R> Reader<R> {
     }
 //@end
 
+// AUDIT COPY (known finding, C16): the same real function under the contract that the property statement
+// asks for -- "text events that become empty are dropped". Nothing calls it. It is expected to fail exactly
+// the added clause (see known_findings.txt); any other failure of it is a new violation.
+//@extract reader::Reader::read_event_impl#audit | - | clone_of=reader::Reader::read_event_impl rename=read_event_impl:read_event_impl__audit serves=C16 audit=1 nocanary=1
+//@patch stack_effect(old(self).state, final(self).state, r), ==> stack_effect(old(self).state, final(self).state, r),\n            r matches Ok(Event::Text(e)) ==> e.content@.len() > 0, // C16: an emptied text event is dropped
+//@end
+
 //@extract reader::Reader::read_until_close | src/reader/mod.rs :: impl<R> Reader<R> :: fn read_until_close | serves=C01,C02,C03,C04,C05,C08,C12,C16,C18 expand=read_until_close
     /// Private function to read until `>` is found. This function expects that
     /// it was called just after encounter a `<` symbol.
